@@ -42,7 +42,7 @@ theorem limit_is_spec : Generated.implMaxMessageSize = maxMessageSize := by deci
 theorem guards_spec :
     Generated.implDecodeGuards =
       ["unsigned_varint::encode::usize(len, &mut varint_buf).len() != varint_len",
-       "len > MAX_MESSAGE_SIZE", "rest.len() < len"] := by decide
+       "len > MAX_MESSAGE_SIZE", "rest.len() < len", "!check_nesting(&rest[..len], Nesting::Message)"] := by decide
 
 /-- Non-vacuity: `81 80 80 02` denotes 4 MiB + 1. -/
 example : CompleteVarint [0x81, 0x80, 0x80, 0x02] ∧ natValue [0x81, 0x80, 0x80, 0x02] > maxMessageSize := by
